@@ -156,17 +156,31 @@ def workflow_config(scheme, db):
     return fit_config(scheme, default_config(scheme), db)
 
 
+def as_bytes(x):
+    """identifiers may come back as any bytes-like object (bytearray == bytes): compared and hashed as bytes"""
+    return bytes(x) if isinstance(x, (bytearray, memoryview)) else x
+
+
+def ordered(res, expected):
+    """what get_result_list() returned as a list of hashable identifiers; a set result is put into the expected order"""
+    if isinstance(res, (set, frozenset)):
+        res = [as_bytes(x) for x in res]
+        return sorted(res, key=lambda x: expected.index(x) if x in expected else -1)
+    return [as_bytes(x) for x in res]
+
+
 def same_result(scheme, got, expected):
     """got: what get_result_list() returned; expected: the posting list (list)."""
     if scheme in SET_RESULT:
         try:
-            return set(got) == set(expected) and len(got) == len(set(expected))
+            g = [as_bytes(x) for x in got]
+            return set(g) == set(expected) and len(g) == len(set(expected))
         except TypeError:
             return False
-    return list(got) == list(expected)
+    return [as_bytes(x) for x in got] == list(expected)
 
 
 def result_positions(got, expected):
     """Map each returned identifier to its 1-based position in the expected list (0 = foreign). For traces."""
     pos = {x: i + 1 for i, x in enumerate(expected)}
-    return [pos.get(x, 0) for x in got]
+    return [pos.get(as_bytes(x), 0) for x in got]
